@@ -12,6 +12,14 @@ theorem isBufferAddress_spec (k : ObjKind) :
     isBufferAddress k = (k == .BufferAddress || k == .RWBufferAddress) := by
   cases k <;> decide
 
+/-- The extracted `get_register_type` table has a register class exactly for the kinds the spec calls resources
+    (finite: 29 cases). -/
+theorem registerType_isSome_spec (k : ObjKind) : (registerType k).isSome = resource k := by
+  cases k <;> decide
+
+theorem registerType_none_iff {k : ObjKind} : registerType k = none ↔ resource k = false := by
+  rw [← registerType_isSome_spec]; cases registerType k <;> simp
+
 /-- The parameter sets `compile()` uses never combine buffer addresses with the Metal layout. -/
 def ParamsOk (p : Params) : Prop := p.supportBufferAddress = true → p.metalSlotLayout = false
 
@@ -71,53 +79,48 @@ theorem step_spec {p : Params} (hp : ParamsOk p) {dflt : Nat} {st st' : State} {
         · simp [expected, bound]
       | some k =>
         simp only [step, hss, Bool.false_eq_true, if_false, hinl] at h
-        cases hi : isInline p k len with
-        | true =>
-          have hsba : p.supportBufferAddress = true := by
-            simp [isInline] at hi; exact hi.1.1
-          have hmetal : p.metalSlotLayout = false := hp hsba
-          have hlen : len = none := by
-            simp [isInline] at hi; exact hi.2
-          subst hlen
-          simp only [hi, if_true, Counter.bump, slotCount, sliceCost_spec, hmetal] at h
+        cases hreg : registerType k with
+        | none =>
+          have hres : resource k = false := registerType_none_iff.1 hreg
+          simp only [hreg] at h
           cases h
           refine ⟨?_, ?_, ?_⟩
-          · intro g; simp [indexCount, hss, hi]
-          · intro g; simp [inlineBytes, hss, hi, group]
-            by_cases hg : set.getD dflt = g
-            · subst hg; simp
-            · have hg' : ¬ g = set.getD dflt := fun e => hg e.symm
-              simp [hg, hg']
-          · simp [expected, bound, hss, inlineBytes, hi, group, setLoc]
-        | false =>
-          simp only [hi, Bool.false_eq_true, if_false, Counter.bump, slotCount, sliceCost_spec] at h
-          cases hr : p.requireSlotType with
+          · intro g; simp [indexCount, hss, hres]
+          · intro g; simp [inlineBytes, hss, hres]
+          · simp [expected, bound, hres]
+        | some r =>
+          have hres : resource k = true := by
+            rw [← registerType_isSome_spec, hreg]; rfl
+          simp only [hreg] at h
+          cases hi : isInline p k len with
           | true =>
-            simp only [hr, if_true] at h
-            cases hreg : registerType k with
-            | none => simp [hreg] at h
-            | some r =>
-              simp only [hreg] at h
-              cases h
-              refine ⟨?_, ?_, ?_⟩
-              · intro g; simp [indexCount, hss, hi, group]
-                by_cases hg : set.getD dflt = g
-                · subst hg; simp
-                · have hg' : ¬ g = set.getD dflt := fun e => hg e.symm
-                  simp [hg, hg']
-              · intro g; simp [inlineBytes, hss, hi]
-              · simp [expected, bound, hss, inlineBytes, hi, group, setLoc]
-          | false =>
-            simp only [hr, Bool.false_eq_true, if_false] at h
+            have hsba : p.supportBufferAddress = true := by
+              simp [isInline] at hi; exact hi.1.1
+            have hmetal : p.metalSlotLayout = false := hp hsba
+            have hlen : len = none := by
+              simp [isInline] at hi; exact hi.2
+            subst hlen
+            simp only [hi, if_true, Counter.bump, slotCount, sliceCost_spec, hmetal] at h
             cases h
             refine ⟨?_, ?_, ?_⟩
-            · intro g; simp [indexCount, hss, hi, group]
+            · intro g; simp [indexCount, hss, hi, hres]
+            · intro g; simp [inlineBytes, hss, hi, group, hres]
               by_cases hg : set.getD dflt = g
               · subst hg; simp
               · have hg' : ¬ g = set.getD dflt := fun e => hg e.symm
                 simp [hg, hg']
-            · intro g; simp [inlineBytes, hss, hi]
-            · simp [expected, bound, hss, inlineBytes, hi, group, setLoc]
+            · simp [expected, bound, hss, inlineBytes, hi, group, setLoc, hres]
+          | false =>
+            simp only [hi, Bool.false_eq_true, if_false, Counter.bump, slotCount, sliceCost_spec] at h
+            cases h
+            refine ⟨?_, ?_, ?_⟩
+            · intro g; simp [indexCount, hss, hi, group, hres]
+              by_cases hg : set.getD dflt = g
+              · subst hg; simp
+              · have hg' : ¬ g = set.getD dflt := fun e => hg e.symm
+                simp [hg, hg']
+            · intro g; simp [inlineBytes, hss, hi, hres]
+            · simp [expected, bound, hss, inlineBytes, hi, group, setLoc, hres]
 
 
 theorem TilesTo.append {s m e : Nat} {a b : List (Nat × Nat)} (ha : TilesTo s a m) (hb : TilesTo m b e) :
@@ -135,8 +138,8 @@ theorem unbound_zero {p : Params} {d : Decl} (h : bound p d = false) :
     cases k with
     | none => simp [indexCount, inlineBytes]
     | some k =>
-      simp only [bound, Bool.not_eq_false'] at h
-      simp [indexCount, inlineBytes, h]
+      simp only [bound, Bool.and_eq_false_iff, Bool.not_eq_false'] at h
+      rcases h with h | h <;> simp [indexCount, inlineBytes, h]
 
 theorem inline_excl_index {p : Params} {d : Decl} (h : inlineBytes p d ≠ 0) : indexCount p d = 0 := by
   cases d with
@@ -154,7 +157,11 @@ theorem inline_excl_index {p : Params} {d : Decl} (h : inlineBytes p d ≠ 0) : 
         simp only [h1] at h
         split
         · rfl
-        · rename_i h2; simp [h2] at h
+        · rename_i h2
+          simp only [h2] at h
+          split
+          · rfl
+          · rename_i h3; simp [h3] at h
 
 /-- Invariant of the fold: from any state, the observed ranges of group `g` tile
     `[used g, used' g)` and `[inline g, inline' g)`, and the totals are the specified sums. -/
